@@ -86,6 +86,7 @@ class RespRun:
         self.world: Optional[sim.World] = None
         self.end_ms = 0.0
         self.assemblies: List[Dict[str, Any]] = []
+        self.excluded_f12 = 0
 
     # -- helpers -----------------------------------------------------------------------------------
     def last_sighting(self, ident: Tuple, before_g: int) -> Optional[Tuple[float, float, int]]:
@@ -235,6 +236,13 @@ class RespRun:
                 ttl = exp0[ident]
                 half = ttl // 2
                 known.append((ident, {'below': half, 'above': half + 1, 'full': ttl, 'zero': 0}[mode]))
+            ep = self._pick_endpoint(host, ev)
+            if self.sc.get('exclude_f12') and ep.sock.family == 10:
+                # open finding F12: AAAA records parsed on an IPv6 socket carry its scope id and never match the
+                # responder's own (scope-less) records; excluded by construction, counted
+                n_before = len(known)
+                known = [k_ for k_ in known if k_[0][0] != 'AAAA']
+                self.excluded_f12 += n_before - len(known)
             ka_rrs = [rp.wire_rr_of_ident(i, t) for i, t in known]
             auth = []
             if ev.get('probe'):
@@ -243,7 +251,6 @@ class RespRun:
                                   qid=ev.get('id', 0), tc=bool(ev.get('tc')), authorities=auth)
             if ev.get('pad'):
                 data = data  # identical content unless 'variant' differs; see C12 trains
-            ep = self._pick_endpoint(host, ev)
             src = self._src(ev)
             if ep.sock.family == 10 and len(src) == 2:
                 src = ('::ffff:' + src[0], src[1], 0, ep.sock.getsockname()[3])
